@@ -48,7 +48,7 @@ Proof.
   - rewrite Es. unfold classify.
     change (ss "(") with [40%N]. change (ss ")") with [41%N]. change (ss "[") with [91%N]. change (ss "]") with [93%N]. change (ss ",") with [44%N].
     rewrite !str_eqb_single by assumption. unfold valid_int. rewrite <- Es, HP. rewrite Es.
-    cbv iota. repeat match goal with |- context [match ?p with _ => _ end] => destruct p end; reflexivity.
+    replace (c =? 33)%N with false by (symmetry; apply N.eqb_neq; exact N33). reflexivity.
 Qed.
 
 (* ---------- the layout Dump uses ---------- *)
